@@ -205,11 +205,12 @@ Example C04_instance_hypotheses : (forall x, cpar (cser x) = x) /\ (forall es x,
   /\ (forall x, centries (cpretty x) = centries x) /\ (forall m, cmime (cmime_bytes m) = m).
 Proof. exact (conj cpar_cser (conj centries_with (conj centries_pretty cmime_bytes_ok))). Qed.
 
-(* F42 (new finding, not repaired): the alphabet excludes giving manifest.rdf an EMPTY media type, because the faithful model,
-   like the implementation, then breaks the invariant at the next save: _check_manifest_rdf tests the truth value of the media
-   type, deletes the part and keeps the entry *)
+(* F42: before its repair (fixes/F42-*.diff: `is not None` instead of the truth value of the media type) giving manifest.rdf an
+   empty media type breaks the invariant at the next save; with the repair the same history keeps it, and the alphabet of
+   C04_full no longer excludes it *)
 Theorem C04_rdf_empty_type_refuted : exists (s : cfs * cdoc) (o1 o2 : cop),
   cPkgOKb (fst s) (snd s) = true /\
-  let s2 := fst (cstep FIXED (fst (cstep FIXED s o1)) o2) in cPkgOKb (fst s2) (snd s2) = false.
+  (let s2 := fst (cstep FIXED42OFF (fst (cstep FIXED42OFF s o1)) o2) in cPkgOKb (fst s2) (snd s2) = false) /\
+  (let s2 := fst (cstep FIXED (fst (cstep FIXED s o1)) o2) in cPkgOKb (fst s2) (snd s2) = true).
 Proof. exact f42_refuted. Qed.
 Print Assumptions C04_rdf_empty_type_refuted.
